@@ -21,6 +21,10 @@ def globals_snapshot():
 NESTED = []
 
 
+def _grader_trace(frame, event, arg):
+    return None
+
+
 def main():
     data = json.load(sys.stdin)
     res = []
@@ -67,6 +71,10 @@ def main():
             NESTED.clear()
             if st.get('tracer'):
                 sb.tracer_style = st['tracer']
+            if st.get('pre_trace'):
+                # the grader has a trace function of its own installed (a debugger, a coverage run of the grading script)
+                sys.settrace(_grader_trace)
+                before = globals_snapshot()
             t0 = time.time()
             try:
                 kw = {'threaded': True} if st.get('threaded') else {}
